@@ -3,6 +3,7 @@ pub mod c02;
 pub mod c03;
 pub mod c04;
 pub mod c05;
+pub mod c07;
 pub mod c11;
 pub mod c18;
 pub mod c19;
@@ -12,5 +13,5 @@ pub mod exprspace;
 use crate::engine::Prop;
 
 pub fn all() -> Vec<Prop> {
-    vec![c01::PROP, c02::PROP, c03::PROP, c04::PROP, c05::PROP, c11::PROP, c18::PROP, c19::PROP, c20::PROP]
+    vec![c01::PROP, c02::PROP, c03::PROP, c04::PROP, c05::PROP, c07::PROP, c11::PROP, c18::PROP, c19::PROP, c20::PROP]
 }
